@@ -32,6 +32,18 @@ def datadir_ops(case, d):
     """one array; a list of (method, name spelling, args); snapshot before/after each"""
     base = os.path.join(d, 'arr')
     a = make(case['kind'], base)
+    via = case.get('via')
+    if via:          # the same array, opened through a path that is not canonical
+        del a
+        os.makedirs(os.path.join(d, 'side'), exist_ok=True)
+        if via == 'dotdot':
+            p2 = os.path.join(d, 'side', '..', 'arr')
+        elif via == 'symlink':
+            os.symlink(d, os.path.join(d, 'side', 'lnk'))
+            p2 = os.path.join(d, 'side', 'lnk', 'arr')
+        else:
+            p2 = os.path.relpath(base, os.getcwd())
+        a = (darr.Array if case['kind'] == 'Array' else darr.RaggedArray)(p2, accessmode='r+')
     for lnk, tgt in case.get('links', []):
         os.symlink(tgt.replace('$BASE', base), os.path.join(base, lnk))
     for sub in case.get('dirs', []):
